@@ -151,6 +151,7 @@ func (b *BatchProcessor) poll(interval time.Duration) (done chan struct{}) {
 			case <-b.pollKill:
 				return
 			}
+			verifPoint("blp.poll.woke", b)
 
 			if d := b.q.Dropped(); d > 0 {
 				global.Warn("dropped log records", "dropped", d)
@@ -169,6 +170,7 @@ func (b *BatchProcessor) poll(interval time.Duration) (done chan struct{}) {
 			} else {
 				qLen = b.q.Len()
 			}
+			verifPoint("blp.poll.dequeued", b, qLen)
 
 			if qLen >= b.batchSize {
 				// There is another full batch ready. Immediately trigger
@@ -187,8 +189,10 @@ func (b *BatchProcessor) poll(interval time.Duration) (done chan struct{}) {
 // OnEmit batches provided log record.
 func (b *BatchProcessor) OnEmit(_ context.Context, r *Record) error {
 	if b.stopped.Load() || b.q == nil {
+		verifPoint("blp.onemit.ignored", r)
 		return nil
 	}
+	verifPoint("blp.onemit.checked", r)
 	// The record is cloned so that changes done by subsequent processors
 	// are not going to lead to a data race.
 	if n := b.q.Enqueue(r.Clone()); n >= b.batchSize {
@@ -200,14 +204,17 @@ func (b *BatchProcessor) OnEmit(_ context.Context, r *Record) error {
 			// records.
 		}
 	}
+	verifPoint("blp.onemit.enqueued", r)
 	return nil
 }
 
 // Shutdown flushes queued log records and shuts down the decorated exporter.
 func (b *BatchProcessor) Shutdown(ctx context.Context) error {
 	if b.stopped.Swap(true) || b.q == nil {
+		verifPoint("blp.sd.already", ctx)
 		return nil
 	}
+	verifPoint("blp.sd.swapped", ctx)
 
 	// Stop the poll goroutine.
 	close(b.pollKill)
@@ -217,9 +224,11 @@ func (b *BatchProcessor) Shutdown(ctx context.Context) error {
 		// Out of time.
 		return errors.Join(ctx.Err(), b.exporter.Shutdown(ctx))
 	}
+	verifPoint("blp.sd.polldone", ctx)
 
 	// Flush remaining queued before exporter shutdown.
 	err := b.exporter.Export(ctx, b.q.Flush())
+	verifPoint("blp.sd.flushed", ctx)
 	return errors.Join(err, b.exporter.Shutdown(ctx))
 }
 
@@ -233,8 +242,10 @@ var ctxErr = func(ctx context.Context) error {
 // ForceFlush flushes queued log records and flushes the decorated exporter.
 func (b *BatchProcessor) ForceFlush(ctx context.Context) error {
 	if b.stopped.Load() || b.q == nil {
+		verifPoint("blp.ff.stopped", ctx)
 		return nil
 	}
+	verifPoint("blp.ff.checked", ctx)
 
 	buf := make([]Record, b.q.cap)
 	notFlushed := func() bool {
@@ -255,6 +266,7 @@ func (b *BatchProcessor) ForceFlush(ctx context.Context) error {
 			break
 		}
 	}
+	verifPoint("blp.ff.dequeued", ctx)
 	return errors.Join(err, b.exporter.ForceFlush(ctx))
 }
 
@@ -300,6 +312,7 @@ func (q *queue) Dropped() uint64 {
 func (q *queue) Enqueue(r Record) int {
 	q.Lock()
 	defer q.Unlock()
+	verifPoint("blp.q.enqueued", r, q.write.Value, q.len == q.cap)
 
 	q.write.Value = r
 	q.write = q.write.Next()
@@ -334,10 +347,13 @@ func (q *queue) TryDequeue(buf []Record, write func([]Record) bool) int {
 		q.read = q.read.Next()
 	}
 
+	verifPoint("blp.q.offered", buf[:n])
 	if write(buf[:n]) {
 		q.len -= n
+		verifPoint("blp.q.dequeued", buf[:n])
 	} else {
 		q.read = origRead
+		verifPoint("blp.q.restored", buf[:n])
 	}
 	return q.len
 }
@@ -354,6 +370,7 @@ func (q *queue) Flush() []Record {
 		q.read = q.read.Next()
 	}
 	q.len = 0
+	verifPoint("blp.q.flushed", out)
 
 	return out
 }
